@@ -346,3 +346,223 @@ def getitem_2d(case):
     if CTX.mode != "sym" and length(rdata) == ny * nx:
         for p in range(length(rdata)):
             check("elem-is-the-selected-one", same(item(rdata, p), item(data, spec_index(p, False))))
+
+
+# ---------------------------------------------------------------------------------------------
+# wrappers: BoolArray2D/IntArray2D.__getitem__ re-wrap what _getitem_impl returns (by its contract)
+@harness("C13", cases=[dict(cls=c, res=r) for c in ("BoolArray2D", "IntArray2D") for r in ("scalar", "1d", "2d", "raise")])
+def getitem_wrapper(case):
+    """__getitem__ returns the scalar unchanged, or the same elements in the same order and shape in the
+    array class of the receiver; IndexError propagates"""
+    if CTX.mode != "sym":
+        return
+    H, W = sint("H"), sint("W")
+    requires(And(H >= 0, W >= 0))
+    arr = OBJ(A, case.cls, shape=(H, W), data=slist("d", "ref", H * W))
+    ghost("sref_classes", set())
+    n, a, b = sint("n"), sint("a"), sint("b")
+    requires(And(n >= 0, a >= 0, b >= 0))
+    if case.res == "scalar":
+        inner = sref("elem")
+    elif case.res == "1d":
+        inner = OBJ(A, "Array1D", shape=(n,), data=slist("r1", "ref", n))
+    elif case.res == "2d":
+        inner = OBJ(A, "Array2D", shape=(a, b), data=slist("r2", "ref", a * b))
+    else:
+        inner = None
+
+    def impl(it, args, kwargs):
+        if inner is None:
+            raise PyRaise(IndexError("index out of bounds"))
+        return inner
+
+    use_contract(GI, impl)
+    one = "BoolArray1D" if case.cls.startswith("Bool") else "IntArray1D"
+    o = call(REAL(A, case.cls + ".__getitem__"), arr, Opaque("key"))
+    if case.res == "raise":
+        check("IndexError-propagates", o.exc == "IndexError")
+        return
+    check("no-exception", not o.raised)
+    if o.raised:
+        return
+    r = o.value
+    if case.res == "scalar":
+        check("scalar-unchanged", same(r, inner))
+        return
+    src = attr(inner, "data")
+    if case.res == "1d":
+        check("class-1d", isinst(r, A, one))
+        check("shape-1d", And(len(attr(r, "shape")) == 1, attr(r, "shape")[0] == n))
+        check("length", length(attr(r, "data")) == n)
+        check("same-elements-in-order", forall_range(n, lambda k: same(raw_item(attr(r, "data"), k), raw_item(src, k))))
+    else:
+        check("class-2d", isinst(r, A, case.cls))
+        sh = attr(r, "shape")
+        check("shape-2d", And(len(sh) == 2, sh[0] == a, sh[1] == b))
+        check("length", length(attr(r, "data")) == a * b)
+        check("same-elements-in-order", forall_range(a * b, lambda k: same(raw_item(attr(r, "data"), k), raw_item(src, k))))
+
+
+def _shape_inputs(case):
+    for H in range(0, 4):
+        for W in range(0, 4):
+            for a in range(0, 5):
+                for b in range(0, 5):
+                    yield dict(H=H, W=W, a=a, b=b)
+
+
+def _native_array(cls, H, W):
+    """a real array object of the class with H*W distinct opaque elements (bypassing element checks)"""
+    return OBJ(A, cls, shape=(H, W) if cls.endswith("2D") else (H * W,), data=slist("d", "ref", H * W))
+
+
+@harness("C13", cases=[dict(cls=c) for c in ("BoolArray1D", "IntArray1D", "BoolArray2D", "IntArray2D")], native_inputs=_shape_inputs)
+def reshape_flatten(case):
+    """reshape((a, b)): ValueError iff a*b != number of elements, else the same elements in the same row-major
+    order with the new shape, in the 2D class of the same element kind; flatten(): same elements, 1D"""
+    H, W = sint("H"), sint("W")
+    requires(And(H >= 0, W >= 0))
+    arr = _native_array(case.cls, H, W)
+    src = attr(arr, "data")
+    a, b = sint("a"), sint("b")
+    requires(And(a >= 0, b >= 0))
+    two = "BoolArray2D" if case.cls.startswith("Bool") else "IntArray2D"
+    one = "BoolArray1D" if case.cls.startswith("Bool") else "IntArray1D"
+    o = call(REAL(A, case.cls + ".reshape"), arr, (a, b))
+    fits = a * b == H * W
+    if o.raised:
+        check("raises-only-ValueError", o.exc == "ValueError")
+        check("raises-only-on-size-mismatch", Not(fits))
+    else:
+        check("returns-only-when-sizes-match", fits)
+        r = o.value
+        check("class", isinst(r, A, two))
+        sh = attr(r, "shape")
+        check("shape", And(len(sh) == 2, sh[0] == a, sh[1] == b))
+        check("length", length(attr(r, "data")) == H * W)
+        check("row-major-order-preserved", forall_range(H * W, lambda k: same(raw_item(attr(r, "data"), k), raw_item(src, k))))
+    if case.cls.endswith("2D"):
+        o2 = call(REAL(A, case.cls + ".flatten"), arr)
+        check("flatten-no-exception", not o2.raised)
+        if not o2.raised:
+            f = o2.value
+            check("flatten-class", isinst(f, A, one))
+            check("flatten-shape", And(len(attr(f, "shape")) == 1, attr(f, "shape")[0] == H * W))
+            check("flatten-order", forall_range(H * W, lambda k: same(raw_item(attr(f, "data"), k), raw_item(src, k))))
+
+
+def _g1_inputs(case):
+    for n in range(0, 5):
+        if case.key == "int":
+            for k in range(-6, 7):
+                yield dict(n=n, k=k)
+        else:
+            _, a, b, c = case.key.split(":")
+            rng = [-6, -3, -1, 0, 1, 2, 5]
+            for s in ([None] if a == "none" else rng):
+                for e in ([None] if b == "none" else rng):
+                    for st in ([None] if c == "none" else [-3, -1, 1, 2]):
+                        d = dict(n=n)
+                        if s is not None:
+                            d["ystart"] = s
+                        if e is not None:
+                            d["ystop"] = e
+                        if st is not None:
+                            d["ystep"] = st
+                        yield d
+
+
+@harness("C13", cases=[dict(cls=c, key=k) for c in ("BoolArray1D", "IntArray1D") for k in AXIS_KINDS], native_inputs=_g1_inputs)
+def getitem_1d(case):
+    """1D arrays: a[k] is the list element (IndexError exactly when the list raises it); a[slice] holds exactly the
+    elements the slice selects from the list, in order, in the same 1D class"""
+    n = sint("n")
+    requires(n >= 0)
+    data = slist("d", "ref", n)
+    arr = OBJ(A, case.cls, shape=(n,), data=data)
+    key = sint("k") if case.key == "int" else _axis_key(case.key, "y")
+    o = call(REAL(A, case.cls + ".__getitem__"), arr, key)
+    if case.key == "int":
+        valid = And(key >= 0 - n, key < n)
+        if o.raised:
+            check("raises-only-IndexError", o.exc == "IndexError")
+            check("raises-only-when-list-does", Not(valid))
+        else:
+            check("returns-only-when-valid", valid)
+            check("element", same(o.value, raw_item(data, pyslice.norm_index(key, n))))
+        return
+    check("no-exception", not o.raised)
+    if o.raised:
+        return
+    r = o.value
+    s0, e0, st0 = pyslice.indices(n, key.start, key.stop, key.step)
+    cnt = pyslice.range_len(s0, e0, st0)
+    check("class", isinst(r, A, case.cls))
+    check("length", length(attr(r, "data")) == cnt)
+    check("shape", attr(r, "shape")[0] == cnt)
+    if CTX.mode == "sym":
+        lemma("C13/lemma_slice_in_bounds", True)
+    check("selected-elements-in-order", forall_range(cnt, lambda k: same(raw_item(attr(r, "data"), k), raw_item(data, s0 + k * st0))))
+
+
+def _coord_inputs(case):
+    for H in range(0, 3):
+        for W in range(0, 3):
+            for y in range(-3, 4):
+                for x in range(-3, 4):
+                    yield dict(H=H, W=W, y=y, x=x)
+
+
+@harness("C13", cases=[dict(form=f) for f in ("pairs", "int-entry", "triple-entry", "str-entry")], native_inputs=_coord_inputs)
+def getitem_coordinate_list(case):
+    """a[[(y, x), ...]]: element-wise the (int, int) case, a 1D result in the order of the list; malformed
+    entries raise TypeError"""
+    H, W = sint("H"), sint("W")
+    requires(And(H >= 0, W >= 0))
+    data = slist("d", "ref", H * W)
+    arr = OBJ(A, "Array2D", shape=(H, W), data=data)
+    y, x = sint("y"), sint("x")
+    valid = And(y >= 0 - H, y < H, x >= 0 - W, x < W)
+    f = REAL(A, "Array2D._getitem_impl")
+    if case.form != "pairs":
+        bad = {"int-entry": 3, "triple-entry": (y, x, 0), "str-entry": ("a", x)}[case.form]
+        o = call(f, arr, mklist([bad]))
+        check("malformed-entry-raises-TypeError", o.exc == "TypeError")
+        return
+    if CTX.mode == "sym":
+        # unbounded list of pairs: the loop body is verified for an arbitrary entry (y, x); the recursive
+        # call is replaced by the contract of the (int, int) case (proved by getitem_2d[int,int])
+        def impl(it, args, kwargs):
+            self_, key = args
+            ky, kx = key
+            ok = And(ky >= 0 - H, ky < H, kx >= 0 - W, kx < W)
+            if not ok:
+                raise PyRaise(IndexError("index out of bounds"))
+            return raw_item(data, pyslice.norm_index(ky, H) * W + pyslice.norm_index(kx, W))
+
+        def pair():
+            return (y, x)
+
+        def on_append(ns, value):
+            check("appended-element-is-the-addressed-one", same(value, raw_item(data, pyslice.norm_index(y, H) * W + pyslice.norm_index(x, W))))
+            check("appended-only-for-valid-coordinates", valid)
+
+        use_contract(GI, impl)
+        watch("append", GI, "data", on_append)
+        loop_spec(GI, 0, inv=lambda ns: [], modifies=["data"], types={"data": "list:ref"})
+        o = call(f, arr, AbstractSeq(pair, "coords", length=sint("ncoords")))
+        if o.raised:
+            check("raises-only-IndexError", o.exc == "IndexError")
+            check("raises-only-for-an-invalid-coordinate", Not(valid))
+        else:
+            check("result-is-1d", And(isinst(o.value, A, "Array1D"), not isinst(o.value, A, "Array2D")))
+        return
+    o = call(f, arr, mklist([(y, x), (y, x)]))
+    if o.raised:
+        check("raises-only-IndexError", o.exc == "IndexError")
+        check("raises-only-for-an-invalid-coordinate", Not(valid))
+    else:
+        check("returns-only-for-valid-coordinates", valid)
+        r = attr(o.value, "data")
+        e = item(data, pyslice.norm_index(y, H) * W + pyslice.norm_index(x, W))
+        check("elements-in-list-order", And(length(r) == 2, same(item(r, 0), e), same(item(r, 1), e)))
